@@ -427,6 +427,7 @@ again:
 		}
 	}
 	/* let anything that is still pending (there must be nothing) show itself */
+	sim_fair_finish();
 	sim_wait_idle(2000000000ull);
 	sim_mark_interesting();
 	/* evaluated last on purpose (known finding KF-C11-1 must not hide the other oracles of a run) */
